@@ -783,6 +783,10 @@ impl<'a> UdpNhcRepr {
             // UDP checksum value of 0 means no checksum; if the checksum really is zero,
             // use all-ones, which indicates that the remote end must verify the checksum.
             packet.set_checksum(if chk_sum == 0 { 0xffff } else { chk_sum });
+        } else {
+            // make sure we get a consistently zeroed checksum,
+            // since implementations might rely on it
+            packet.set_checksum(0);
         }
     }
 }
